@@ -129,6 +129,8 @@ def gen_script(rng, sid):
             steps.append({"op": "close"})
             steps.append({"op": "sleep", "ms": 5})
         steps.append({"op": "release", "gate": g})
+    if cfg["acked"] and rng.random() < 0.4:
+        cfg["requireAll"] = True
     return {"id": sid, "cfg": cfg, "steps": steps, "outcomes": outcomes}
 
 
@@ -220,6 +222,13 @@ def directed_scripts():
             out.append({"id": "D11-overflow-%d-%d" % (k, j), "cfg": dict(base, batchSize=10, batchBytes=120, nparts={"t": 1}, batchTimeoutMs=bt),
                         "outcomes": {}, "steps": steps})
             out[-1]["cfg"]["async"] = asyn
+    # the scenarios with scripted failures once more with RequiredAcks = RequireAll (-1)
+    for sc in list(out):
+        if sc["cfg"]["acked"] and any(sc["outcomes"].values()):
+            c2 = json.loads(json.dumps(sc))
+            c2["id"] += "-acksall"
+            c2["cfg"]["requireAll"] = True
+            out.append(c2)
     return out
 
 
@@ -259,6 +268,8 @@ def real_script(rng, sid, pv=None, cuts=None):
         steps.append({"op": "waitcall", "c": k})
     if rng.random() < 0.3:
         steps.append({"op": "close"})
+    if rng.random() < 0.4:
+        cfg["requireAll"] = True
     return {"id": sid, "cfg": cfg, "steps": steps, "outcomes": outcomes}
 
 
@@ -338,11 +349,49 @@ def run_scripts(ctx, scripts, tag, par=24):
     tp = os.path.join(ctx.work, "wtraces-%s.ndjson" % tag)
     write_ndjson(sp, scripts)
     p = ctx.run_vh(["writer", "-scripts", sp, "-out", tp, "-par", str(par)], timeout=1500)
+    if p.returncode != 0 and ("panic:" in p.stderr or "fatal error:" in p.stderr):
+        # a panic in a goroutine of the library kills the driver: find the scripts that cause it
+        return isolate(ctx, scripts, tag)
     if p.returncode != 0:
         raise Inconclusive("vh writer failed: " + p.stderr[-2000:])
     traces = split_traces(read_ndjson(tp))
     if len(traces) != len(scripts):
         raise Inconclusive("driver produced %d traces for %d scripts" % (len(traces), len(scripts)))
+    return traces
+
+
+def isolate(ctx, scripts, tag):
+    """Run every script in its own process; a script whose process dies with a panic is a violation (the Writer takes
+    the program down instead of reporting an outcome). Returns the traces of the surviving scripts."""
+    from concurrent.futures import ThreadPoolExecutor
+
+    def one(k):
+        sp = os.path.join(ctx.work, "wiso-%s-%d.ndjson" % (tag, k))
+        tp = os.path.join(ctx.work, "wiso-%s-%d.t" % (tag, k))
+        write_ndjson(sp, [scripts[k]])
+        p = ctx.run_vh(["writer", "-scripts", sp, "-out", tp, "-par", "1"], timeout=300)
+        if p.returncode != 0:
+            return k, None, p.stderr
+        return k, read_ndjson(tp), ""
+
+    with ThreadPoolExecutor(max_workers=16) as ex:
+        res = list(ex.map(one, range(len(scripts))))
+    traces, died = [], 0
+    for k, evs, err in res:
+        if evs is not None:
+            traces.append(evs)
+            continue
+        if "panic:" not in err and "fatal error:" not in err:
+            raise Inconclusive("vh writer failed on %s: %s" % (scripts[k]["id"], err[-1500:]))
+        died += 1
+        first = [x for x in err.splitlines() if x.startswith("panic:") or x.startswith("fatal error:")][:1]
+        if died <= 20:
+            rep = ctx.save_replay("%s-panic" % scripts[k]["id"], [("script.json", json.dumps(scripts[k])), ("stderr.txt", err[-8000:])])
+            ctx.violation("the library panicked while the Writer ran script %s: %s" % (scripts[k]["id"], first[0] if first else "panic"), rep,
+                          key="panic script=%s %s" % (scripts[k]["id"], first[0] if first else ""))
+        c = scripts[k]["cfg"]
+        traces.append([{"ev": "cfg", "id": scripts[k]["id"], "batchSize": c["batchSize"], "batchBytes": c["batchBytes"], "maxAttempts": c["maxAttempts"],
+                        "acked": c["acked"], "async": c["async"], "topic": c["topic"], "nparts": c["nparts"], "died": True}])
     return traces
 
 
